@@ -281,6 +281,7 @@ func (s *fsm13) prepare(ctx context.Context, conn Conn) (nextState State, err er
 		return StateErrored, err
 	}
 
+	pkts = verifEditFlight(s.state, s.currentFlight.String(), pkts)
 	s.flights = pkts
 	s.prepareFlightACKTracking(s.flights, s.retransmit)
 	if err := s.commitPreparedFlight(conn, s.currentFlight, s.flights); err != nil {
